@@ -39,6 +39,7 @@ type Result struct {
 	Configs   []string
 	Rules     map[string]string // rule id -> description
 	floors    map[string]int
+	curConfig string
 }
 
 func newResult(prop string) *Result {
@@ -68,8 +69,14 @@ func (r *Result) add(o Obl) {
 
 func (r *Result) checkFloors() {
 	counts := map[string]int{}
+	first := ""
 	for _, o := range r.Obls {
-		counts[o.Rule]++
+		if first == "" {
+			first = o.Config
+		}
+		if o.Config == first || o.Config == "" {
+			counts[o.Rule]++ // floors are per build configuration
+		}
 	}
 	var rules []string
 	for rule := range r.floors {
@@ -438,7 +445,7 @@ var explanations = map[string]string{}
 func (r *Result) hasConstruct(rule, construct string) bool {
 	key := rule + " | " + construct
 	for _, o := range r.Obls {
-		if o.Construct == key {
+		if o.Construct == key && o.Config == r.curConfig {
 			return true
 		}
 	}
